@@ -14,7 +14,8 @@ run_one() {
   rsync -a --exclude .git /repo/ $w/repo/
   cp /verif/known_findings.json $w/verif/
   if ! (cd $w/repo && git apply --whitespace=nowarn $dir/patch.diff) 2>/dev/null; then echo "SKIP $kind $name (patch does not apply)"; rm -rf $w; return; fi
-  out=$(RG_WORK=$w/work /verif/bin/rgcheck -prop all -repo $w/repo -verif $w/verif 2>&1)
+  cp -al $SEED $w/gocache
+  out=$(GOCACHE=$w/gocache RG_WORK=$w/work /verif/bin/rgcheck -prop all -repo $w/repo -verif $w/verif 2>&1)
   fired=$(echo "$out" | grep '^VIOLATION' | sed 's/.*property=\(C[0-9]*\).*/\1/' | tr '\n' ' ')
   if [ $kind = ref ]; then
     if [ -n "$fired" ]; then echo "FALSE-ALARM $name: $fired"; echo "$out" | grep '^  ' | sort -u | cut -c1-240 | head -8; else echo "ok silent $name"; fi
@@ -26,4 +27,10 @@ run_one() {
   rm -rf $w
 }
 export -f run_one; export ROOT
+# every scratch copy compiles under its own path and would add ~0.3 GB to the shared Go build cache (a whole run filled the
+# disk once): each copy gets a hard-linked clone of a warm cache that holds the standard library, and takes it away with it
+SEED=$ROOT/gocache_seed
+GOCACHE=$SEED RG_WORK=$ROOT/seedwork /verif/bin/rgcheck -prop C04 -repo /repo -verif $ROOT/seedverif >/dev/null 2>&1
+rm -rf $ROOT/seedwork $ROOT/seedverif
+export SEED
 ( for d in /verif/refactorings/*/; do [ -f $d/patch.diff ] && echo "ref ${d%/}"; done; for d in /verif/seeded/*/; do [ -f $d/patch.diff ] && echo "seed ${d%/}"; done ) | grep -E "$FILTER" | xargs -P 8 -L 1 bash -c 'run_one $0 $1' | sort
